@@ -16,6 +16,10 @@ FAULTS = [
     # invalid identifiers with non-ASCII letters, digits and other numerics, at statement start and as operands
     "mētäl2 is 5", "ÿ2k says hi", "put 1 into café1", "naïve² is 4", "x² is 1", "é1", "say é1", "É9 takes X", "build ü3 up", "日本1 is 2",
     "x٣ is 1", "ab½ is 1", "put é_é into X", "Ünï1 Cörn is 3",
+    # mutation operands that are not identifiers (each kind the error message names), and expected-token lists of every length
+    "cut roll X", "join X at 1", "cast \"s\"", "cut F taking 1, 2", "shatter roll roll X", "unite 5 with 2",
+    "X 5", "X 'n' 5", "X & Y", "the heart 5", "Tom Sawyer 5", "it 5", "X at 1 5", "turn X sideways", "F takes X 'n'", "F taking 1 'n'",
+    "say 1 is as", "say 1 is as 5 as 2", "say 1 is bigger", "say 1 is bigger 2", "knock X down up", "build X up down",
 ]
 
 
